@@ -7,7 +7,7 @@ import (
 )
 
 func init() {
-	rule := "forced schedules on one real client.Client (harness-owned conn, gated codec, client.send.enter hook): 1..4 calls of kinds {Go, blocking Call, one-way Go}, " +
+	rule := "forced schedules on one real client.Client (harness-owned conn, gated codec, client.send.enter hook): 1..4 calls of kinds {Go, blocking Call (cancellable or with a deadline), one-way Go, Go with a raw-bytes reply}, " +
 		"events {register, encode failure, write failure/success, cancel, response frames (normal / error / undecodable / heartbeat-flagged / duplicate / unknown seq), " +
 		"server pushes with colliding seq, peer-close (reader termination) between frames and in the middle of a response frame (five byte-offset classes), Close, and a fresh call entering send() while a teardown (peer-close or Close) is parked inside the ClientConnectionClose plugin} in random enabled orders; each schedule is executed step by step on the implementation " +
 		"and replayed on the Lean multiplexer model; observables: per call number of Done signals and final outcome (or the blocking caller's return), " +
@@ -74,6 +74,8 @@ func runMux(o *Out, r *rand.Rand, focus string) {
 		{"GB", "r0 w0 K1"},    // … or while Close is in progress
 		{"BGG", "r1 w1 H0 r2"},
 		{"GG", "r0 r1 w0 w1 f:0:k:5 f:1:-:6"}, // a response in an unknown serialize type fails its own call only
+		{"GD", "r0 y0 r1 y1 c1 w0 f:0:-:4"}, // the deadline of one caller passes while it and another call are inside Write
+		{"GD", "r0 y0 r1 w1 c1 w0 f:0:-:5"},
 		{"GG", "r0 w0 N1"},             // a call sent while the reader hands its connection-lost notice to a slow consumer
 		{"GBG", "r0 w0 f:0:qo:3 N1 r2"},
 		{"GG", "r0 w0 r1 w1 p:0:3 C"},  // the peer dies in the middle of the response to call 0
@@ -98,7 +100,7 @@ func muxCase(o *Out, kinds string, evs []string) {
 	}
 	nontrivial := false
 	for _, e := range evs {
-		if e == "T" || e == "C" || e[0] == 'p' || e[0] == 'N' || e[0] == 'H' || e[0] == 'K' || e[0] == 'f' || e[0] == 'e' || e[0] == 'x' || e[0] == 'c' {
+		if e == "T" || e == "C" || e[0] == 'y' || e[0] == 'p' || e[0] == 'N' || e[0] == 'H' || e[0] == 'K' || e[0] == 'f' || e[0] == 'e' || e[0] == 'x' || e[0] == 'c' {
 			nontrivial = true
 		}
 		o.Count("ev." + e[:1])
